@@ -424,11 +424,95 @@ def corpus_gated() -> list[dict]:
         for x, y, (pos, lp) in (("probe", "close", hot[0]), ("shutdown", "probe", hot[1]), ("addrs", "shutdownT", hot[2]), ("close", "shutdown", hot[3])):
             cs.append(_gcase(kind, [["serve"], ["w:up", "shutdown", "serve"], ["w:L:xb", x, "probe"],
                                     [f"w:2:{pos.split('+')[0]}|2:ret", y, "probe"]], _window(2, pos, lp)))
+    return cs + corpus_tail() + corpus_gated_accept()
+
+
+TAIL_PTS = ("L:xd", "L:r1", "L:r2", "L:r3", "L:close", "L:closed")
+TAIL_MS = 150
+# what 1-2 threads do inside the window "portal already exited, serve_forever() still tearing down"
+TAIL_PROGS = (
+    [["shutdown", "serve"]],
+    [["shutdown", "probe", "serve"]],
+    [["serve", "shutdown", "serve"]],
+    [["close", "probe", "serve"]],
+    [["shutdown", "serve"], ["shutdown", "probe"]],
+    [["shutdownT", "shutdown", "serve"]],
+    [["shutdown", "probe"], ["close", "serve"]],
+    [["shutdown", "addrs", "serve"], ["serve", "shutdown"]],
+)
+
+
+def _tail_case(kind: str, first: str, lp: str, window: list[list[str]], ms: int = TAIL_MS) -> dict:
+    """thread 0 serves, thread 1 starts the tear-down (`first`), the loop thread is kept at `lp` — after the ThreadsPortal
+    has exited, before serve_forever() has finished — until the window threads (2, 3, …) have made their calls (on the
+    unchanged library a shutdown() issued there blocks until serve_forever() is over: the hold ends by time-out)"""
+    progs = [["serve"], ["w:up", first]]
+    done = []
+    for j, ops in enumerate(window):
+        t = 2 + j
+        progs.append([f"w:{lp}"] + list(ops))
+        done.append(f"{t}:ret#{len(ops)}")
+    return _gcase(kind, progs, [{"at": lp, "until_all": done, "ms": ms}])
+
+
+def corpus_tail() -> list[dict]:
+    """the tail of the tear-down: portal exited (it refuses calls with RuntimeError), event loop / embedded server still
+    closing, bootstrap lock not yet re-taken, `is_shutdown` not yet set — 1-2 threads calling shutdown() / serve_forever() /
+    server_close() there.  "shutdown returns only after serving has fully stopped"; a new serve_forever() is refused with
+    ServerAlreadyRunning inside the window and accepted right after a shutdown() has returned."""
+    cs = []
+    k = 0
+    for kind in ("tcp", "udp"):
+        for first in ("shutdown", "close", "shutdownT"):
+            for lp in TAIL_PTS:
+                cs.append(_tail_case(kind, first, lp, TAIL_PROGS[k % len(TAIL_PROGS)]))
+                k += 1
+        for w in TAIL_PROGS[:3]:
+            cs.append(_tail_case(kind, "shutdown", "L:r3", w))          # (where a default-executor job would keep the loop)
+    return cs
+
+
+ACC_ERRNOS = ("EMFILE", "ENFILE", "ENOMEM", "ENOBUFS")
+
+
+def corpus_gated_accept() -> list[dict]:
+    """standalone TCP server whose listener's accept() fails with a capacity error (scripted in the harness event loop,
+    c18_gates.GLoop.sock_accept): the accept loop sleeps 100 ms and retries, over and over; shutdown() / shutdown(timeout) /
+    server_close() arrive during a back-off; then the same server object serves again (an echo proves it) or refuses"""
+    cs = []
+    for k, err in enumerate(ACC_ERRNOS):
+        fail = [[err] * 40]
+        cs.append({**_gcase("tcp", [["serve", "serve"], ["w:up", "w:L:accfail", "shutdown", "w:up#2", "echo", "probe"]], []), "acc": fail})
+        cs.append({**_gcase("tcp", [["serve", "serve"], ["w:up", "w:L:accfail", "close", "probe"]], []), "acc": fail})
+        cs.append({**_gcase("tcp", [["serve", "serve"], ["w:up", "w:L:accfail", "shutdownT", "shutdown", "w:up#2", "echo"]], []), "acc": fail})
+        # a client is accepted first; the failures begin with the next accept()
+        cs.append({**_gcase("tcp", [["serve", "serve"], ["w:up", "conn", "w:L:accfail", "shutdown", "w:up#2", "echo", "disc"]], []),
+                   "acc": [["ok"] + [err] * 40]})
+        # both runs start with failing accepts; two stops racing in the back-off
+        cs.append({**_gcase("tcp", [["serve", "serve"], ["w:up", "w:L:accfail", "shutdown", "w:up#2", "echo"],
+                                    ["w:up", "w:L:accfail", ("shutdown", "close", "probe", "shutdownT")[k], "probe"]], []),
+                   "acc": [[err] * 40, [ACC_ERRNOS[(k + 1) % 4]] * 3]})
     return cs
 
 
 def rand_gated(rng) -> dict:
     kind = rng.choice(["tcp", "udp"])
+    r = rng.random()
+    if r < 0.25:
+        # the tail of the tear-down
+        ops = ["shutdown", "shutdown", "shutdown", "serve", "close", "probe", "shutdownT", "addrs"]
+        window = [[rng.choice(ops) for _ in range(rng.randint(1, 3))] for _ in range(rng.choice([1, 1, 2, 3]))]
+        if not any("shutdown" in w for w in window):
+            window[0].insert(0, "shutdown")
+        return _tail_case(kind, rng.choice(["shutdown", "shutdown", "close", "shutdownT"]), rng.choice(TAIL_PTS), window,
+                          ms=rng.choice([100, 150, 150, 250]))
+    if r < 0.35:
+        err = rng.choice(ACC_ERRNOS)
+        stop = rng.choice(["shutdown", "shutdown", "shutdownT", "close"])
+        tail = ["probe"] if stop == "close" else ["w:up#2", "echo", rng.choice(["probe", "shutdown", "close"])]
+        pre = ["conn"] if rng.random() < 0.3 else []
+        return {**_gcase("tcp", [["serve", "serve"], ["w:up"] + pre + ["w:L:accfail", stop] + tail], []),
+                "acc": [(["ok"] if pre else []) + [err] * 40] + ([[rng.choice(ACC_ERRNOS)] * rng.randint(1, 3)] if rng.random() < 0.4 else [])}
     sc = rng.choice("ABCD" if kind == "tcp" else "BCD")
     pos, lp = rng.choice(T_POS), rng.choice(L_PTS + ("L:r2",))
     tail = [rng.choice(G_CALLS) for _ in range(rng.randint(1, 3))] + rng.choice([[], ["w:0:ret", "serve"], ["w:0:ret", "serve", "probe"]])
